@@ -84,6 +84,7 @@ extern const Scenario kLocksScenario;
 extern const Scenario kIdmScenario;
 extern const Scenario kEpochScenario;
 extern const Scenario kZipfScenario;
+extern const Scenario kLitmusScenario;
 
 }  // namespace sim
 
